@@ -4,7 +4,8 @@ check against the copy (sources are only parsed, never built or run).
 
 usage: tools/mutest.py <prop> <patch> [--expect RULE[,RULE]] [--keep]
 The patch may start with '# expect: C05.R1[,C05.R2]' and '# desc: ...' lines.
-exit 0 = the check fired on the mutant and named an expected rule; 1 = it did not."""
+exit 0 = the check fired on the mutant and named an expected rule; 1 = it did not.
+'# expect: none' marks an equivalent variant (fixtures/equivalent/<prop>/): a behaviour-preserving edit on which the check must exit 0."""
 import os, sys, subprocess, shutil, tempfile, json, re
 
 VERIF = os.path.dirname(os.path.dirname(os.path.abspath(__file__)))
@@ -37,9 +38,15 @@ def mutest(prop, patch, expect=None, keep=False, quiet=False):
             print('PATCH-FAILED %s: %s' % (patch, r.stdout + r.stderr))
             return 2, set()
         rc, rules, out = run_check(prop, d)
-        ok = rc == 1 and (not exp or (exp & rules))
+        if exp == {'none'}:
+            # equivalent variant: a behaviour-preserving edit; the check must stay silent (exit 0)
+            ok = rc == 0
+            tag = 'SILENT' if ok else 'FALSE-ALARM'
+        else:
+            ok = rc == 1 and (not exp or (exp & rules))
+            tag = 'CAUGHT' if ok else 'MISSED'
         if not quiet:
-            print('%s %s rc=%d fired=%s expected=%s' % ('CAUGHT' if ok else 'MISSED', os.path.basename(patch), rc, sorted(rules), sorted(exp)))
+            print('%s %s rc=%d fired=%s expected=%s' % (tag, os.path.basename(patch), rc, sorted(rules), sorted(exp)))
             if not ok:
                 print(out[-3000:])
         return (0 if ok else 1), rules
